@@ -322,6 +322,9 @@ class StreamProcessor(Entity):
             # Event falls within the window or within gap of its boundaries
             if event_time_s >= w.start - gap and event_time_s <= w.end:
                 w.records.append(value)
+                # An out-of-order event before the first one moves the start
+                if event_time_s < w.start:
+                    w.start = event_time_s
                 # Extend end if event is near the boundary
                 new_end = event_time_s + gap
                 if new_end > w.end:
